@@ -1,6 +1,6 @@
 (* Proofs/Http.v — C04: lemmas about Model/Http.v (REST transcoding). *)
 From Coq Require Import Permutation.
-From GV Require Import Base.Str Gen.Kw Model.Reserved Model.Case Model.HttpValues Model.Http.
+From GV Require Import Base.Str Gen.Kw Gen.HttpGen Model.Reserved Model.Case Model.HttpValues Model.Http.
 Local Open Scope list_scope.
 
 (* ------------------------------------------------------------------ small list facts *)
@@ -591,3 +591,33 @@ Example ex_spec_applies_full :
   spec_applies (mkBinding "post" "/v1/{name=items/*}/{sub.class_=things/*}:one" (Some "sub")) ex_req = true
   /\ body_attr_ok (attrs_of ex_method) (mkBinding "post" "/v1/{name=items/*}/{sub.class_=things/*}:one" (Some "sub")) = true.
 Proof. split; vm_compute; reflexivity. Qed.
+
+(* ------------------------------------------------------------------ T0 pins: the literals Model/Http.v was written against *)
+Example pin_PATH_PARAMS_RE : PATH_PARAMS_RE_src = "\{(\w+)(?:=.+?)?\}"%string.
+Proof. reflexivity. Qed.
+Example pin_TRY_PARSE_TESTS :
+  TRY_PARSE_TESTS_src = "method is None or method == 'custom' ; not uri ; body in utils.RESERVED_NAMES and (not body.endswith('_'))"%string.
+Proof. reflexivity. Qed.
+Example pin_QUERY_PARAMS_RETURN : QUERY_PARAMS_RETURN_src = "set(self.input.fields) - params ; set() ; set()"%string.
+Proof. reflexivity. Qed.
+Example pin_VARIABLE_RE :
+  VARIABLE_RE_src = "((?P<positional>\*\*?)|{(?P<name>[^/]+?)(?:=(?P<template>.+?))?})"%string.
+Proof. reflexivity. Qed.
+Example pin_SEGMENT_PATTERNS : SEGMENT_PATTERNS_src = "([^/]+) (.+)"%string.
+Proof. reflexivity. Qed.
+
+(* further non-vacuity: a request taken by the SECOND binding (hypotheses of first_matching_spec), and the numeric run *)
+Example ex_second_binding :
+  exists t b0, transcode (attrs_of add_method) (http_options add_method) [sleaf [F "parent"] "ps/p"] = Some t /\
+    0 < t_index t /\ nth_error (http_options add_method) 0 = Some b0 /\
+    body_attr_ok (attrs_of add_method) b0 = true /\ spec_applies b0 [sleaf [F "parent"] "ps/p"] = false.
+Proof. eexists. eexists. split; [vm_compute; reflexivity|]. cbn [t_index]. split; [lia|]. split; [vm_compute; reflexivity|]. split; vm_compute; reflexivity. Qed.
+
+Example ex_run_numeric :
+  run true ex_method ex_req =
+  Sent "post" "/v1/items/i1/things/t1:one"
+       [("kind", "1"); ("tags", "a"); ("tags", "b"); ("labels.k.x", "v"); ("from", "f"); ("class", "");
+        ("pageSize", "0"); ("flag", "false"); ("ratio", "0.0"); ("blob", "b''"); ("big", "0");
+        ("$alt", "json;enum-encoding=int")]%string
+       (Some [("count", "3")]%string).
+Proof. vm_compute. reflexivity. Qed.
